@@ -4,6 +4,7 @@ mod acks;
 mod delivery;
 mod durability;
 mod fragdirect;
+mod keeplast;
 mod oversleep;
 
 use common::Shard;
@@ -17,6 +18,7 @@ fn main() {
         "c01" => delivery::run(&shard, "C01", delivery::Mode::Reliable),
         "c03" => acks::run(&shard),
         "c04" => durability::run(&shard),
+        "c27" => keeplast::run(&shard),
         "c31" => oversleep::run(&shard),
         "c02" => delivery::run(&shard, "C02", delivery::Mode::BestEffort),
         "c05" => {
